@@ -4,6 +4,7 @@ Property theorems only; helper lemmas live in Proof/Kernels.lean.
 -/
 import SuccinctlyVerif.Proof.Kernels
 import SuccinctlyVerif.Proof.KernelsBP
+import SuccinctlyVerif.Proof.KernelsBlock
 namespace SV.Props.C02
 open SV
 
@@ -59,5 +60,23 @@ theorem find_close_in_word_eq (x : BitVec 64) (p : Nat) :
 example : findCloseInWord 0xFFFF_FFFF_FFFF_FF2F#64 2 = some 7
     ∧ findCloseInWord 0xFFFF_FFFF_FFFF_FF2F#64 8 = none
     ∧ findCloseInWord 0xFFFF_FFFF_FFFF_FF2F#64 4 = some 4 := by decide +kernel
+
+/-- `block_popcount_portable` (sum of `count_ones`) = sum of the bit-at-a-time counts, for every
+block (of any length, 8 words in particular). -/
+theorem block_popcount_portable_eq (block : List (BitVec 64)) :
+    blockPopcountPortable block = (block.map popcount).sum :=
+  Kernels.blockPopcountPortable_eq block
+
+/-- Lane model of `block_popcount_avx2` (nibble `vpshufb` lookups, two wrapping `add_epi8`
+accumulations, `vpsadbw`, four-lane sum) = sum of the bit-at-a-time counts, for every 8-word block;
+in particular the `u8` lanes never wrap. -/
+theorem block_popcount_avx2_eq (block : List (BitVec 64)) (h : block.length = 8) :
+    blockPopcountAvx2 block = (block.map popcount).sum :=
+  Kernels.blockPopcountAvx2_eq block h
+
+example : ∃ block : List (BitVec 64), block.length = 8 ∧ blockPopcountAvx2 block = 64 * 8 - 3
+    ∧ blockPopcountPortable block = 64 * 8 - 3 :=
+  ⟨[BitVec.allOnes 64, BitVec.allOnes 64, 0x7FFF_FFFF_FFFF_FFFE#64, BitVec.allOnes 64,
+    BitVec.allOnes 64, BitVec.allOnes 64, 0xFFFF_FFEF_FFFF_FFFF#64, BitVec.allOnes 64], by decide +kernel⟩
 
 end SV.Props.C02
